@@ -21,8 +21,12 @@ def run(pid, tier, v, wd, repo, tags="verif,dae_stub_ebpf"):
     infile = os.path.join(wd.path, "udpflow.ndjson")
     n = 0
     with open(infile, "w") as out:
-        cfgs = ["UdpFlow_genA.cfg", "UdpFlow_genAB.cfg"] + (["UdpFlow_genAB5.cfg"] if tier != "quick" else [])
-        for cfg in cfgs:
+        plan = {   # configuration -> 1/keep of its behaviours in the quick tier
+            "C06": [("UdpFlow_genA.cfg", 3), ("UdpFlow_genAB.cfg", 1)],
+            "C13": [("UdpFlow_genA.cfg", 3), ("UdpFlow_genAB.cfg", 1), ("UdpFlow_genScope.cfg", 8), ("UdpFlow_genMixed.cfg", 8)],
+            "C18": [("UdpFlow_genAB.cfg", 1), ("UdpFlow_genMixed.cfg", 8)],
+        }[pid] + ([("UdpFlow_genAB5.cfg", 1)] if tier != "quick" else [])
+        for cfg, keep in plan:
             part = infile + ".part"
             r = vlib.tlc(wd, "UdpFlow", cfg, emit_to=part, timeout=3000)
             v.add_tlc(r)
@@ -30,7 +34,8 @@ def run(pid, tier, v, wd, repo, tags="verif,dae_stub_ebpf"):
                 raise vlib.Infra("UdpFlow.tla violates %s in the model (%s)" % (r.violated, cfg))
             lines = open(part).read().splitlines()
             os.remove(part)
-            keep = 3 if (tier == "quick" and cfg == "UdpFlow_genA.cfg") else 1
+            if tier != "quick":
+                keep = 1
             for i, line in enumerate(lines):
                 if (i + vlib.seed()) % keep == 0:
                     out.write(line + "\n")
@@ -55,7 +60,7 @@ def run(pid, tier, v, wd, repo, tags="verif,dae_stub_ebpf"):
     c = res.get("counters") or {}
     if c.get("uf_replayed_batches", 0) == 0 or c.get("uf_steps_with_held_datagrams", 0) == 0:
         raise vlib.Infra("the handlePkt replay never held or replayed a datagram: vacuous (%s)" % c)
-    v.assumptions.append("handlePkt: one client source, flows to two sniffable destinations and one other; ClientHello in one or two Initial datagrams (QUIC v1, "
+    v.assumptions.append("handlePkt: one client source, flows to two sniffable destinations and one other; kernel routing results cpr (two DSCP values) / g1 / g2, with and without a routing program that looks at packet metadata (endpoint keys with routing scope); ClientHello in one or two Initial datagrams (QUIC v1, "
                          "packet-number lengths 1-4, protected by an independent RFC 9001 implementation); the harness classifies each datagram as the ingress loop of "
                          "control_plane.go does (ClassifyUdpFlow + EnsureSnifferSession) and calls handlePkt one datagram at a time; fixed-policy groups g1 / g2 behind "
                          "routing { domain(full: example.com) -> g2, fallback: g1 }; replies from upstream are not driven; virtual time")
